@@ -126,6 +126,10 @@ class Prog:
         def draws(tag):
             vals = [bi.rrand(self.ra, self.rb), bi.rand(10), bi.rand(1.0), bi.rand2(self.rb), bi.coin(0.5),
                     bi.choice([1, 2, 3, 4, 5]), bi.linrand(1.0), bi.exprand(1.0, 2.0)]
+            vals += list(bi.scramble([1, 2, 3, 4, 5]))
+            lst5 = [1, 2, 3, 4, 5]
+            bi.shuffle(lst5)
+            vals += lst5
             log.append((tag, vals))
 
         def child_body():
@@ -273,6 +277,12 @@ def nrt_scenario(ctx, j, out):
     for a, b in zip(lst, lst2):
         ctx.prove(R(a[0]) == R(b[0]), 'two fresh runs list a bundle at different times', data('det-score'))
     e1, e2 = raw_entries(raw, data), raw_entries(raw2, data)
+    # the raw score (what is rendered) is stamped with the listed times
+    if len(e1) != len(lst):
+        raise Violation(f'raw score has {len(e1)} entries, the list {len(lst)}', None, data('raw'))
+    for k_, (a, e) in enumerate(zip(e1, lst)):
+        ctx.prove(a[0] == symx.to_int_trunc(R(e[0]) * TWO32), f'raw score entry {k_} ({[m[0] for m in e[1:]]}) is not '
+                  'stamped with its listed time', data('raw-time'))
     if [x[1] for x in e1] != [x[1] for x in e2]:
         raise Violation('two fresh runs produced different raw scores', None, data('det-raw'))
     for a, b in zip(e1, e2):
